@@ -6,6 +6,7 @@ import (
 	"io/ioutil"
 	"os"
 	"path/filepath"
+	"regexp"
 	"runtime"
 	"sort"
 	"strconv"
@@ -231,6 +232,10 @@ func WorkerMain(hs []*Harness) int {
 		crashMarker, crashFocus, crashVariant = filepath.Join(outDir, fmt.Sprintf("current-%d.json", worker)), focus, variant
 	}
 	budget := time.Duration(envInt("VERIF_BUDGET_S", 30)) * time.Second
+	var knownRe *regexp.Regexp
+	if kr := os.Getenv("VERIF_KNOWN_RE"); kr != "" {
+		knownRe, _ = regexp.Compile(kr)
+	}
 	maxRuns := envInt("VERIF_MAXRUNS", 1<<30)
 	start := time.Now()
 	sum := &WorkerSummary{Harness: h.Name, Variant: variant, Worker: worker, Faults: map[string]int{}, Probes: map[string]int{}, OtherProps: map[string]int{}}
@@ -288,7 +293,13 @@ func WorkerMain(hs []*Harness) int {
 				sum.Errors = append(sum.Errors, fmt.Sprintf("seed=%d: violation %s did not reproduce on immediate re-run (nondeterminism)", seed, key))
 				continue
 			}
-			minC, _ := Minimise(h, c, v.Prop, v.Sig, 300, time.Now().Add(90*time.Second))
+			// a recorded finding (the orchestrator passes their signatures) is confirmed and replayable but
+			// gets only a token minimisation: the budget belongs to exploration
+			minRuns, minFor := 300, 90*time.Second
+			if knownRe != nil && knownRe.MatchString(v.Sig) {
+				minRuns, minFor = 40, 6*time.Second
+			}
+			minC, _ := Minimise(h, c, v.Prop, v.Sig, minRuns, time.Now().Add(minFor))
 			keep := &Log{}
 			_ = keep
 			final := safeRun(h, minC)
